@@ -11,6 +11,7 @@ EXPLANATION = (
     "entries finite; POW2MINX[i] == 2^-i > 0 (so z is finite and partial_cmp never sees NaN). Sortedness of the raw-estimate rows is "
     "deliberately not required (the published table for b = 6 has two inversions). R03-panic-census: the may-panic sites reachable "
     "from count inside the crate are exactly the allow-listed ones, each with its discharge."
+    ' R03-threshold-window: 0 < THRESHOLD[b] <= 2*2^b, increasing — linear counting must not be used beyond the hand-over window the property tolerates. R03-table-index: the three tables are indexed with self.b - lo.'
 )
 NOT_DECIDED = ("every statistical clause of C03 — RMS error, bias, tail frequency, the linear-counting hand-over bump, small-range exactness: "
                "statements about a distribution over hash streams whose determining constants (alpha, ~3000 table values) have no code-shape oracle")
